@@ -23,6 +23,7 @@ func runC11(c *Ctx) {
 	c.Rule("one-range-per-requested-value", "V1: every iteration appends once; V2: the three miss cases append NotFoundRange", 2)
 	c.Rule("single-lookup-reports-not-found", "NotFoundRange → NotFoundRangeErr", 1)
 	c.Rule("sampled-offsets-stride", "value k kept iff (k-1) mod sampling == 0, also for sampling 1", 3)
+	c.Rule("sampled-offsets-searched-completely", "each lookup round searches the whole sampled table", 1)
 	p := c.Load("pkg/block/indexheader")
 	if p == nil {
 		return
@@ -34,6 +35,67 @@ func runC11(c *Ctx) {
 		return
 	}
 	construct := rel + ".(*BinaryReader).postingsOffset"
+	// every round of the search over the sampled offsets looks at the whole table: sort.Search over
+	// len(offsets) with the predicate indexing by its own parameter, result used as it is. (A round may
+	// leave the scan at the last sampled offset with the wanted value still ahead; a search that starts
+	// behind the previous position then runs off the end and reports existing values as missing.)
+	{
+		info := fn.Info()
+		n, bad := 0, ""
+		ast.Inspect(fn.Body(), func(nd ast.Node) bool {
+			call, ok := nd.(*ast.CallExpr)
+			if !ok || len(call.Args) != 2 {
+				return true
+			}
+			f := calleeOf(info, call)
+			if f == nil || f.Pkg() == nil || f.Pkg().Path() != "sort" || f.Name() != "Search" {
+				return true
+			}
+			lit, ok := unparen(call.Args[1]).(*ast.FuncLit)
+			if !ok || len(lit.Type.Params.List) != 1 || len(lit.Type.Params.List[0].Names) != 1 || len(lit.Body.List) != 1 {
+				return true
+			}
+			ret, ok := lit.Body.List[0].(*ast.ReturnStmt)
+			if !ok || len(ret.Results) != 1 {
+				return true
+			}
+			cmp, ok := unparen(ret.Results[0]).(*ast.BinaryExpr)
+			if !ok || cmp.Op != token.GEQ {
+				return true
+			}
+			// left side: <table>[<something>].value
+			sel, ok := unparen(cmp.X).(*ast.SelectorExpr)
+			if !ok || sel.Sel.Name != "value" {
+				return true
+			}
+			ix, ok := unparen(sel.X).(*ast.IndexExpr)
+			if !ok {
+				return true
+			}
+			n++
+			table := canon(ix.X)
+			if objOf(info, ix.Index) != info.Defs[lit.Type.Params.List[0].Names[0]] {
+				bad = "the predicate looks at " + canon(ix) + ", an index shifted away from the searched position"
+			}
+			if canon(call.Args[0]) != "len("+table+")" && bad == "" {
+				bad = "the search covers " + canon(call.Args[0]) + " entries, not the whole table " + table
+			}
+			// the result is used unmodified
+			if par, ok := p.ParentOf(fn.Pkg, call).(*ast.AssignStmt); !ok || len(par.Rhs) != 1 || unparen(par.Rhs[0]) != ast.Expr(call) {
+				if bad == "" {
+					bad = "the position found by the search is adjusted (" + stmtText(p, p.ParentOf(fn.Pkg, call)) + ")"
+				}
+			}
+			return true
+		})
+		switch {
+		case n == 0:
+			c.Check(false, "sampled-offsets-searched-completely", construct+"#search", p.Pos(fn.Decl.Pos()), "search-shape",
+				"no `sort.Search(len(offsets), func(i) { return offsets[i].value >= wanted })` over the sampled offsets found: a search over part of the table, or with a shifted index, is not covered by this analysis")
+		default:
+			c.Check(bad == "", "sampled-offsets-searched-completely", construct+"#search", p.Pos(fn.Decl.Pos()), "search-narrowed", bad)
+		}
+	}
 	// the V1 branch
 	var v1 *ast.IfStmt
 	for _, st := range fn.Decl.Body.List {
